@@ -712,12 +712,15 @@ func (g *rg) tryStmt(d int) bool {
 		g.f("simplifiable")
 		g.line("echo " + g.pick([]string{
 			"\"lit\\$x\"", "\"a\\\"b\"", "\"\\\\n\"", "\"plain\"", "$\"loc\"", "\"back\\`tick\"",
+			"$\"a\\\\nb\"", "$\"t\\\\tx\"", "$\"q\\\"q\"", "\"x\\\\ty\"", "$\"c\\$d\"", "\"two\\\\\\\\bs\"", "$\"e\\\\x41\"",
 			"$(( $" + g.iv() + " + (1) ))", "$(( (" + g.iv() + ") ))", "\"${arr[(1)]}\"", "\"${" + g.v() + ":(0):(2)}\"", "$( (echo nested) )", "\"${arr[$" + g.iv() + "]}\"", "$(( ${" + g.iv() + "} * 2 ))",
 		}))
 	case k == 42 && g.o.Simplifiable:
 		g.f("simplifiable")
 		g.line(g.pick([]string{
 			"[[ \"$" + g.v() + "\" == foo ]] && echo eq", "[[ ! -n $" + g.v() + " ]] && echo empty", "[[ ! a == b ]] && echo ne", "[[ (a == a) ]] && echo par", "( ( echo dbl ) )", "(( ($" + g.iv() + ") > 1 )) && echo gt", "[[ ! ! -z $" + g.v() + " ]] || echo nn", "[[ ! (\"$" + g.v() + "\" != foo) ]] && echo eq2",
+			"[[ \"$" + g.v() + "\" = b* ]] && echo short", "[[ ! \"$" + g.v() + "\" =~ ^f ]] && echo nre", "[[ \"$" + g.iv() + "\" -eq 1 ]] && echo one", "[[ -n \"${" + g.v() + "}\" ]] && echo set", "[[ \"${" + g.v() + "}\" < \"$" + g.v() + "\" ]] && echo lt",
+			"echo $(( ${" + g.iv() + "} + $" + g.iv() + " ))", "echo \"${" + g.v() + ":$" + g.iv() + ":${" + g.iv() + "}}\"", "(( ${" + g.iv() + "} )) && echo nz", "echo $(( ((" + g.iv() + ")) + ((2)) ))", "arr[(1)]=p; echo \"${arr[((1))]}\"", "echo \"$( ( ( echo deep ) ) )\"", "( ( exit 3 ) ); echo $?",
 		}))
 	default:
 		return false
